@@ -255,6 +255,8 @@ class Sim:
         self.done_seq = {}
         self.late_cb = None
         self.max_pending = 0
+        self.last_external = 0
+        self.max_lag = 0
 
     # -- trace -------------------------------------------------------------------------------
     def log(self, kind, node=None, payload=None, run=None):
@@ -390,12 +392,14 @@ class Sim:
                         else:
                             self.loop.call_soon(_release, g)
                         self.decisions.append((self.point, ('arrive', lab)))
+                        self.last_external = self.loop.handles_run
                         break
             elif a[0] == 'tick':
                 if self.loop.tick():
                     self.seq += 1
                     self.trace.append((self.seq, self.loop._vtime, 'tick', -1, None, None))
                     self.decisions.append((self.point, ('tick',)))
+                    self.last_external = self.loop.handles_run
             elif a[0] == 'stop':
                 self.stopped = True
                 self.decisions.append((self.point, ('stop',)))
@@ -426,6 +430,7 @@ class Sim:
                     if not t.done():
                         t.cancel()
                         self.hit('cancel_run')
+                        self.last_external = self.loop.handles_run
                         self.log('cancel', None, None, run=r)
                 plan.pop(self.loop.handles_run, None)
         if self.stopped:
@@ -455,6 +460,9 @@ class Sim:
         for i, t in enumerate(self.run_tasks):
             if i not in self.done_seq and t.done():
                 self.done_seq[i] = (self.seq, self.loop.handles_run)
+                lag = self.loop.handles_run - self.last_external
+                if lag > self.max_lag:
+                    self.max_lag = lag
                 self.log('run_done', None, None, run=i)
         if self.done_seq and len(self.done_seq) == len(self.run_tasks):
             self.after_done_handles += 1
